@@ -1654,6 +1654,11 @@ func genC19(prop, tier string, r *rand.Rand) *Scn {
 			s.Param, s.Val = "retries", 1+r.IntN(5)
 			if r.IntN(4) == 0 {
 				s.Param, s.Val, s.Form = "retries+", 1, "opt" // a relative user-written option: applied once
+			} else if r.IntN(6) == 0 {
+				// a non-positive count: the property does not say what it means, only that
+				// both styles store and treat it alike (judged by the getters and the
+				// canonically configured twin, never against the model; see nonPositiveRetries)
+				s.Val = -r.IntN(2)
 			}
 		case 1:
 			s.Param, s.Val = "wait", pick(r, []int{0, 10, 20, 50})
